@@ -2,12 +2,14 @@ use crate::ctx::Shard;
 
 pub mod c04;
 pub mod c10;
+pub mod c11;
 pub mod c12;
 
 pub fn dispatch(engine: &str, sh: &mut Shard) -> bool {
     match engine {
         "c04" => c04::run(sh),
         "c10" => c10::run(sh),
+        "c11" => c11::run(sh),
         "c12" => c12::run(sh),
         _ => return false,
     }
